@@ -136,8 +136,72 @@ def run_walk_faults(tier, v):
     v.coverage["walk_fault_distinct_outcomes(exit, reachable files, reported)"] = len(outcomes)
 
 
+def run_timestamps(tier, v):
+    """What --check reports is what an edit run does, whatever the files' timestamps say: sources older / newer than the lock file (a tree
+    restored with `cp -p`, `tar x`, `rsync -a`; a clock that went backwards), lock present or not."""
+    import itertools
+    import shutil
+    import scenarios
+    from vcommon import scratch_dir
+    work = scratch_dir("c05ts")
+    files = {"a.rs": scenarios.A_MISSING, "b.rs": scenarios.B_COMPLETE, "c.rs": scenarios.C_MIXED, "d/e.rs": 'fn e() { info!("deep"); }\n'}
+    T = {"2001": 978307200, "now": None, "2037": 2114380800}
+    n = 0
+    for src_t, lock_t, lock, structured in itertools.product(T, T, (None, 8, 100), (False, True)):
+        if lock is None and lock_t != "now":
+            continue
+        res = {}
+        for mode in ("check", "edit"):
+            proj = os.path.join(work, "p%d_%s" % (n, mode))
+            tree = {"src/" + k: val for k, val in files.items()}
+            tree["Breadlog.yaml"] = cli.config_yaml("./src", structured=structured)
+            if lock is not None:
+                tree["Breadlog.lock"] = cli.lock_yaml(lock)
+            cli.write_tree(proj, tree)
+            for k in files:
+                if T[src_t]:
+                    os.utime(os.path.join(proj, "src", k), (T[src_t], T[src_t]))
+            if lock is not None and T[lock_t]:
+                os.utime(os.path.join(proj, "Breadlog.lock"), (T[lock_t], T[lock_t]))
+            r = cli.run_breadlog(os.path.join(proj, "Breadlog.yaml"), check=(mode == "check"), cwd=work, tmpdir=work, timeout=60)
+            after = cli.read_tree(os.path.join(proj, "src"))
+            res[mode] = (r, after)
+            shutil.rmtree(proj, ignore_errors=True)
+        n += 1
+        v.count()
+        v.distinct(("timestamps", src_t, lock_t, lock, structured))
+        rc, _ = res["check"]
+        re_, after = res["edit"]
+        rep = cli.Report(rc.stdout)
+        inserted = {}
+        ok = True
+        for k, orig in files.items():
+            st = cli.token_strip(orig.encode(), after.get(k, b""))
+            if st is None:
+                ok = False
+            else:
+                inserted[k] = len(st)
+        reported = {}
+        for f, _, _ in rep.missing:
+            k = f.split("/src/", 1)[-1]
+            reported[k] = reported.get(k, 0) + 1
+        info = {"sources_mtime": src_t, "lock_mtime": lock_t, "lock": lock, "structured": structured, "check_exit": rc.exit, "edit_exit": re_.exit,
+                "reported": reported, "inserted": inserted}
+        if rc.panicked or re_.panicked or rc.signal is not None or re_.signal is not None:
+            v.violation("cli-crash:timestamps", info)
+        elif not ok:
+            v.violation("not-token-only:timestamps", info)
+        elif {k: c for k, c in inserted.items() if c} != reported:
+            v.violation("check-report-differs-from-edit-insertions:timestamps", info)
+        elif (rc.exit == 0) != (sum(inserted.values()) == 0):
+            v.violation("check-exit-does-not-predict-edit:timestamps", info)
+    v.subspace("timestamps: sources {2001, now, 2037} x lock file {2001, now, 2037} x lock {absent, 8, 100} x style: --check report == insertions of an "
+               "edit run on a copy with the same timestamps", n, exhaustive=True)
+
+
 def run(tier, v):
     run_walk_faults(tier, v)
+    run_timestamps(tier, v)
     for name, it in families(tier):
         cases, dropped = difftree.prefilter(list(it))
         n = 0
